@@ -17,7 +17,9 @@ end HC19
 /-- ["c19.exec", pipeline, dryRun, skipDefaultTx, err, skipHooks, hasSchema, [false atoms], fuel]
       -> {built, sent, txs, keeps} of `execute` over the regenerated table, all other atoms true
     ["c19.finisher", pipeline, batched, explicitTx, dryRun, skipDefaultTx, fuel]
-      -> {exposed: [...], txs: [...]} (finisher level) -/
+      -> {exposed: [...], txs: [...]} (finisher level)
+    ["c19.flags"] -> {beginSkipsDryRun}  (which `DB.Begin` the tree has: regenerated fact, Gen/DryRunRepair.lean)
+    The model is instantiated with the tree's own flag `Gen.beginSkipsDryRun`. -/
 def handleC19 (op : String) (args : Array Json) : Option Json := do
   match op with
   | "c19.exec" =>
@@ -31,7 +33,7 @@ def handleC19 (op : String) (args : Array Json) : Option Json := do
     let st : RunSt := { dryRun := b2, skipDefaultTx := b3, err := b4, skipHooks := b5, hasSchema := b6 }
     let falses ← (← jArr? (arg args 7)).toList.mapM jStr?
     let fuel ← jNat? (arg args 8)
-    some (HC19.outJ (execute Gen.dryFns p.2 st (fun a => !falses.contains a) fuel))
+    some (HC19.outJ (execute Gen.beginSkipsDryRun Gen.dryFns p.2 st (fun a => !falses.contains a) fuel))
   | "c19.finisher" =>
     let pn ← jStr? (arg args 1)
     let b2 ← jBool? (arg args 2)
@@ -41,8 +43,9 @@ def handleC19 (op : String) (args : Array Json) : Option Json := do
     let f : FinSpec := { name := "", pipeline := pn, batched := b2, explicitTx := b3 }
     let st : RunSt := { dryRun := b4, skipDefaultTx := b5, err := false, skipHooks := false, hasSchema := true }
     let fuel ← jNat? (arg args 6)
-    some (Json.mkObj [("exposed", strListJ (HC19.whats (exposed Gen.dryFns f st (fun _ => true) fuel))),
-      ("txs", strListJ ((finisherTx Gen.dryFns f st (fun _ => true) fuel).map (·.what)))])
+    some (Json.mkObj [("exposed", strListJ (HC19.whats (exposed Gen.beginSkipsDryRun Gen.dryFns f st (fun _ => true) fuel))),
+      ("txs", strListJ ((finisherTx Gen.beginSkipsDryRun Gen.dryFns f st (fun _ => true) fuel).map (·.what)))])
+  | "c19.flags" => some (Json.mkObj [("beginSkipsDryRun", Json.bool Gen.beginSkipsDryRun)])
   | _ => none
 
 end Gorm.Drv
